@@ -76,7 +76,7 @@ func (ex *executor) judgeDav(idx int, st *Step, xc *Exchange) {
 		}
 	}
 	// (1) a panic is reported by the caller; a 207 must be a complete document
-	if status == 207 {
+	if status == 207 && !xc.RespCut {
 		if _, err := model.ParseMultiStatus(xc.Resp.Body); err != nil {
 			add("C13", "incomplete-response", fmt.Sprintf("the 207 body is not a complete multi-status document: %v; body %q", err, clipS(string(xc.Resp.Body), 300)))
 		}
